@@ -35,6 +35,7 @@ def relabel_case(rng, line, meta, cid2):
 
 
 def run(ctx):
+    gen.INTEGRAL[0] = True          # real-typed weights are integer-valued here: how fractional weights are rounded is C08's subject
     ctx.trusted = ['Coq 8.16.1 kernel; the three theorems are closed under the global context',
                    'correspondence K-GRAPH and K-E2E with label types size_t, long (negative values), std::string',
                    'modelled, not verified: std::map / std::set as association lists -- only label EQUALITY is used by the model; an implementation depending on the ORDER of labels would show up as a correspondence mismatch']
@@ -43,7 +44,7 @@ def run(ctx):
         return
     rng = ctx.rng
     graphs = [gen.gen_graph_random(rng.fork('g%d' % k), k)[0] for k in range(ctx.budget(300, 6000))]
-    ctx.component('K-GRAPH', graphs)
+    ctx.component('K-GRAPH(label table)', graphs, keys={'dims', 'labels', 'nv'})
     cases = []
     pairs = []
     for k in range(ctx.budget(150, 4000)):
